@@ -165,6 +165,15 @@ EXT2 = {
 }
 for pid, add in EXT2.items():
     CHECKS[pid]["text"] += add
+# Binary-level configuration units (the pool binary started with the flag under test).
+EXT3 = {
+ "C02": " Also: the real pool binary with 5 spellings of --contract.price (default, gwei, bare wei, fractional gwei, szabo): a host's earnings over two keep-alives lie in the bracket [price x shortest span, price x longest span] taken from the harness' own clock around its requests, and client and host balances sum to zero.",
+ "C03": " Also: the real pool binary with 6 spellings of --contract.min-balance: a client without any balance is admitted (vipnode_connect, vipnode_client) iff the minimum is off or zero; a host always.",
+ "C08": " Also: the real pool binary with --max-request-hosts absent/0/1/2/5, three acknowledging hosts and requests for 1/2/3/10 hosts.",
+ "C13": " Also: the real pool binary with --store=persist --datadir, SIGKILLed and restarted after every prefix of a 7-step signed session (registrations, billed keep-alives, wallet links): pool_account of both wallets and the node/credit counters are identical after the restart and every request accepted before the kill is refused when sent again.",
+}
+for pid, add in EXT3.items():
+    CHECKS[pid]["text"] += add
 for pid, (old, new) in NOTE_FIX.items():
     CHECKS[pid]["note"] = CHECKS[pid]["note"].replace(old, new)
 
